@@ -3,6 +3,7 @@ package checks
 import (
 	"context"
 	"fmt"
+	"strings"
 	"sync"
 	"sync/atomic"
 	"testing"
@@ -148,13 +149,19 @@ func c03Pod(class int, ns, rsName, edsName, node, hash string, now time.Time) *c
 
 type c03Config struct {
 	mu, mpsf string
+	// stale: what the replica set's stored status.desired says relative to the nodes of this sync (0 = consistent)
+	stale int
 }
 
 func c03Configs() []c03Config {
 	var out []c03Config
 	for _, mu := range []string{"0", "1", "2", "3", "25%", "50%", "100%"} {
 		for _, mf := range []string{"0", "1", "50%"} {
-			out = append(out, c03Config{mu, mf})
+			out = append(out, c03Config{mu, mf, 0})
+			if strings.HasSuffix(mu, "%") && mf == "0" {
+				// the stored status may describe a larger or an empty cluster (nodes left / first sync)
+				out = append(out, c03Config{mu, mf, 3}, c03Config{mu, mf, -100})
+			}
 		}
 	}
 	return out
@@ -231,6 +238,7 @@ func c03TwinOne(t *testing.T, run *h.Run, seq []int, cfg c03Config) {
 		rs.Status.Conditions = []v1.ExtendedDaemonSetReplicaSetCondition{{Type: v1.ConditionTypeActive, Status: corev1.ConditionTrue,
 			LastTransitionTime: metav1.NewTime(now.Add(-time.Hour)), LastUpdateTime: metav1.NewTime(now.Add(-time.Hour))}}
 		eds.Status.ActiveReplicaSet = rs.Name
+		rs.Status.Desired = int32(max(0, len(seq)+cfg.stale))
 		objs := []client.Object{eds, rs}
 		podName := map[string]int{}
 		for i, c := range seq {
@@ -264,7 +272,7 @@ func c03TwinOne(t *testing.T, run *h.Run, seq []int, cfg c03Config) {
 		mf := resolveStr(cfg.mpsf, len(seq))
 		if sig, msg := c03Oracle(seq, deleted, mu, mf); sig != "" {
 			run.Violate(h.Violation{Signature: sig, Monitor: "C03/twin", Message: msg, Rank: int64(len(seq)),
-				Replay: map[string]interface{}{"level": "reconcile", "classes": c03Names(seq), "maxUnavailable": cfg.mu, "maxPodSchedulerFailure": cfg.mpsf, "deleted": deleted}})
+				Replay: map[string]interface{}{"level": "reconcile", "classes": c03Names(seq), "maxUnavailable": cfg.mu, "maxPodSchedulerFailure": cfg.mpsf, "stored_status_desired_offset": cfg.stale, "deleted": deleted}})
 		}
 		if nd > 0 {
 			run.Nontrivial(fmt.Sprintf("twin:n=%d del=%d mu=%s", len(seq), nd, cfg.mu))
